@@ -286,6 +286,21 @@ def gen_e2e(ctx):
             cases.append({"ep": ep, "t": "ws", "rq": rq, "rs": rs, "msgs": [L.seg(req)], "_exp": [m]})
         for ep in ("tower", "httpbuilder"):
             cases.append({"ep": ep, "t": "http", "rq": rq, "rs": rs, "frames": [L.seg(req)], "cl": len(req), "_exp": [m]})
+    # batches made only of INVALID entries (nothing to execute, no handler involved): the array of -32600 errors is a batch reply
+    # like any other -- sent unchanged when it fits, replaced by -32011 when it does not
+    inv = [(b"1", None), (b'{"id":7,"method":1}', 7), (b'{"id":"q","foo":true}', "q"), (b'"x"', None)]
+    for n in ctx.scale([1, 2, 4, 40], [1, 2, 3, 4, 8, 40]):
+        for pick in range(2):
+            ents = [inv[(k * (pick + 1)) % len(inv)] for k in range(n)]
+            arr = b"[" + b",".join(L.error_bytes(i, -32600, "Invalid request") for _, i in ents) + b"]"
+            req = b"[" + b",".join(t for t, _ in ents) + b"]"
+            for d in (-2, -1, 0, 1):
+                rs = max(1, len(arr) + d)
+                m = M(req, "batch", arr if len(arr) <= rs else L.too_big_batch(rs))
+                for ep in L.EPS_WS:
+                    cases.append({"ep": ep, "t": "ws", "rq": rq, "rs": rs, "msgs": [L.seg(req)], "_exp": [m]})
+                for ep in ("tower", "httpbuilder"):
+                    cases.append({"ep": ep, "t": "http", "rq": rq, "rs": rs, "frames": [L.seg(req)], "cl": len(req), "_exp": [m]})
     # subscribe calls: responses below and above the limit
     for rs in ctx.scale([60, 100, 4096], [40, 60, 100, 200, 4096]):
         for (i, subid) in ((1, 16), ("s" * 30, 40), ("k", 200)):
